@@ -3,6 +3,10 @@
 From Coq Require Import List NArith Bool.
 From RPFT Require Import Base.Sexp Base.PyStr Base.SexpEq Base.Result Gen.Tables Flow.Lts Flow.Flow Flow.RowSem
      Exp.ToRows Exp.Means Exp.MeansFamily Wire.C17Wire Wire.RowSemWire.
+
+(* the premises of to_rows_means_flow_partial on the tree under check (regenerated probes) *)
+Definition all_repairs_w : bool :=
+  loose_exit_rows && pairs_follow_cases && split_rows_carry_save_name && group_split_without_cases_exports.
 Import ListNotations.
 Local Open Scope N_scope.
 
@@ -57,6 +61,12 @@ Definition dispatch_c04 (fn : N) (args : list sexp) : sexp :=
   | 5, [nodes] =>
     match dec_list dec_node nodes with
     | Some nodes => enc_flow (flow_of N ustrN nodes)
+    | None => s_badinput
+    end
+  | 7, [] => enc_bool all_repairs_w
+  | 8, [nodes] =>
+    match dec_list dec_node nodes with
+    | Some nodes => enc_bool (single_rows N nodes)
     | None => s_badinput
     end
   | 6, [nb; strip; nodes] =>           (* the reference flow of the export (diagnostics) *)
